@@ -96,6 +96,10 @@ func (f *verifFactory) AcquirePage(index int64) (page.MappedPage, error) {
 		return p, nil
 	}
 	name := f.fs.pageName(f.path, index)
+	if f.fs.failAcquire != "" && f.fs.failAcquire == name {
+		// an I/O fault on the acquisition of this page (cleared by the harness when the fault ends)
+		return nil, errors.New("acquire page: i/o fault")
+	}
 	data, ok := f.fs.files[name]
 	if !ok {
 		data = f.fs.newFile(name, f.pageSize)
@@ -144,6 +148,8 @@ type verifFS struct {
 	crashAt int
 	// newFile allocates the content of a file that does not exist yet
 	newFile func(name string, size int) []byte
+	// failAcquire: acquiring the page with this file name fails while it is set
+	failAcquire string
 }
 
 // dead counts one store to a mapped page and reports whether the process was already killed.
